@@ -547,6 +547,10 @@ def any_task(t, res):
         from . import c05_chain
 
         return c05_chain.chain_task(t, res)
+    if t["kind"] == "kept":
+        from . import c05_chain
+
+        return c05_chain.kept_task(t, res)
     (ds_task if t["kind"] == "ds" else coll_task)(t, res)
 
 
@@ -566,6 +570,7 @@ def run(ctx):
 
     chain_depth = 3
     tasks += [dict(kind="chain", start=si, first=f, depth=chain_depth) for si in range(len(c05_chain.STARTS) if not ctx.quick else 2) for f in c05_chain.OPS]
+    tasks += [dict(kind="kept", fmt=f, first=o, depth=4) for f in c05_chain.KEPT_FORMATS for o in ("serA", "serB")]
     ctx.pmap(MOD, "any_task", tasks)
     n_cases = sum(len(cases_for(d, fam)) for d, fam in dspecs)
     dspecs = [d for d, _ in dspecs]
@@ -573,6 +578,8 @@ def run(ctx):
         datasets=len(dspecs), dataset_cases=n_cases, collection_cases=len(cspecs),
         chains=dict(ops=c05_chain.OPS, depth=chain_depth, start_datasets=[list(x) for x in c05_chain.STARTS[:len(c05_chain.STARTS) if not ctx.quick else 2]],
                     chains_run=ctx.res.counters.get("chains", 0)),
+        kept_serialized_objects=dict(ops=c05_chain.KEPT_OPS, depth=4, formats=c05_chain.KEPT_FORMATS, sequences_run=ctx.res.counters.get("kept_sequences", 0),
+                                     datasets="two datasets with the same n_mazes / grid / longest solution and different mazes"),
         generated_datasets=sum(1 for d in dspecs if d[0] == "gen"), crafted_datasets=sum(1 for d in dspecs if d[0] == "craft"),
         generators=generators(), grids=sorted({d[2] if d[0] == "gen" else d[1] for d in dspecs}),
         lengths=sorted({d[3] if d[0] == "gen" else len(d[2]) for d in dspecs}),
@@ -604,6 +611,10 @@ def replay(d, res):
             from . import c05_chain
 
             c05_chain.replay(d, res)
+        elif d["kind"] == "kept":
+            from . import c05_chain
+
+            c05_chain.replay_kept(d, res)
         elif d["kind"] == "ds":
             run_case((_tup(d["dspec"]), _tup(d["fmt"]), d["transport"]), tmpdir, res)
         else:
